@@ -316,7 +316,7 @@ class MultistageDistributor:
         :param max_seats: Maximum number of seats that the given
             candidate/party can obtain in total (including previous gains).
         """
-        elected = prev_gains.copy()
+        elected = self._copy_nested(prev_gains, self.depth)
         if hasattr(votes, 'items'):
             votes = [votes] * len(self.rounds)
         for stage, stage_votes in zip(self.rounds, votes):
@@ -325,6 +325,14 @@ class MultistageDistributor:
             )
             self._add_stage_results(elected, stage_res, self.depth)
         return elected
+
+    @classmethod
+    def _copy_nested(cls, gains, depth):
+        if depth == 1:
+            return gains.copy()
+        return {
+            key: cls._copy_nested(val, depth - 1) for key, val in gains.items()
+        }
 
     def _add_stage_results(self, elected, stage_res, depth):
         if depth == 1:
